@@ -73,10 +73,20 @@ func genC38(r *kit.Rand, tier kit.Tier) C38Case {
 		default:
 			h := Host{Name: fmt.Sprintf("h%d.verif-test", i)}
 
-			for k := 0; k < r.Range(1, 3); k++ {
+			nr := r.Range(1, 3)
+			rebindToLoopback := r.Chance(1, 3)
+
+			for k := 0; k < nr; k++ {
 				var round []string
 
-				switch r.Intn(4) {
+				switch r.Intn(5) {
+				case 4:
+					// several public addresses (the dialer may treat multi-address hosts
+					// differently); what follows is often a rebind to loopback
+					round = []string{pick(r, publicAddrs), pick(r, publicAddrs)}
+					if r.Chance(1, 2) {
+						round = append(round, pick(r, publicAddrs))
+					}
 				case 0:
 					round = []string{pick(r, publicAddrs)}
 				case 1:
@@ -85,6 +95,10 @@ func genC38(r *kit.Rand, tier kit.Tier) C38Case {
 					round = []string{pick(r, publicAddrs), pick(r, internalAddrs)}
 				default:
 					round = []string{pick(r, publicAddrs), pick(r, publicAddrs), pick(r, internalAddrs), pick(r, publicAddrs)}
+				}
+
+				if rebindToLoopback && k == nr-1 && k > 0 {
+					round = []string{[]string{"127.0.0.1", "::1", "::ffff:127.0.0.1"}[r.Intn(3)]}
 				}
 
 				h.Rounds = append(h.Rounds, round)
